@@ -243,9 +243,36 @@ empty @is_you(int a) {
 ]
 
 
-def template_family(seed, tier):
+SCOPE_TEMPLATES = [
+    ('loop_inside_try', '''int x = 0;
+empty !f() { !truth_is_defeat(x == 1); }
+empty @is_you(int a, int b) {
+  try { write('t'); for (int i = 0; i < 3; i += 1) { if (i == a) { break; } if (i == b) { continue; } write(i); } x = 1; !f(); write('n'); } %(kind)s { write('h'); }
+  try { write('T'); int k = 0; while (k < 2) { k += 1; if (k == a) { continue; } write(k); } !is_defeat(); } %(kind)s { write('H'); }
+  try { write('U'); for (int j = 0; j < 2; j += 1) { int[] t = [j, j]; if (j == b) { break; } write(t[1]); } !truth_is_defeat(a > b); write('m'); } %(kind)s { write('G'); }
+  write('>');
+}''', [[a, b] for a in (-1, 0, 1, 2) for b in (-1, 0, 1)]),
+    ('defeat_deep_with_live_arrays', '''empty !deep(int d, int i) { int[] pad = [d, d, d]; byte q[d + 1]; q[0] = 'q'; if (d > 0) { !deep(d - 1, i); } !truth_is_defeat(i %% 2 == 0); write(pad[0]); }
+empty @is_you(int n) { int[] keep = [7, 8]; for (int i = 0; i < n; i += 1) { try { write('t'); !deep(2, i); write('n'); } %(kind)s { write('h'); } int[] after = [i, i + 1]; write(after[1]); } write(keep[1]); write('>'); }''',
+     [[0], [1], [2], [3], [5]]),
+    ('two_stop_tries_one_function', '''int x = 0;
+empty !f(int d) { int[] pad = [d]; if (d > 0) { !f(d - 1); } !truth_is_defeat(x == 1); write(pad[0]); }
+empty @inner(int a) { try { x = a; !f(1); write('i'); } stop { write('I'); } }
+empty @is_you(int a, int b) {
+  int keep = 7; int[] arr = [1, 2, 9];
+  if (a > 5) { try { x = 1; !f(0); } stop { write('0'); } }
+  try { x = a; !f(2); write('n'); } stop { write('h'); write(keep); }
+  @inner(1); @inner(0);
+  try { x = b; !f(1); write('m'); } stop { write('H'); write(keep); write(arr[2]); }
+  write(keep); write(arr[2]); write('>');
+}''', [[a, b] for a in (0, 1, 9) for b in (0, 1)]),
+]
+TEMPLATES += SCOPE_TEMPLATES
+
+
+def template_family(seed, tier, only=None):
     items = []
-    for name, tmpl, argss in TEMPLATES:
+    for name, tmpl, argss in (only or TEMPLATES):
         kinds = ['undo', 'stop'] if '%(kind)s' in tmpl else ['-']
         for kind in kinds:
             src = tmpl % {'kind': kind} if kind != '-' else tmpl
@@ -289,7 +316,11 @@ class TTGen:
             return s
         if in_loop and c < 0.86:
             return 'if (%s) { %s; }' % (self.cond(), r.choice(['break', 'continue']))
-        if in_fn and c < 0.9:
+        if d > 0 and c < 0.89:
+            self.n += 1
+            v = 'l%d' % self.n
+            return 'for (int %s = 0; %s < 2; %s += 1) { %s }' % (v, v, v, self.block(d - 1, in_try, True, in_fn, 2))
+        if in_fn and c < 0.92:
             return 'if (%s) { return; }' % self.cond()
         if (not in_try) and d > 0 and c < 0.97:
             kind = r.choice(['undo', 'stop'])
@@ -306,7 +337,8 @@ class TTGen:
         for _ in range(r.randrange(2, 5)):
             c = r.random()
             if c < 0.25:
-                body.append('for (int i = 0; i < 2; i += 1) { %s }' % self.block(2, False, True, False, 3))
+                self.n += 1
+                body.append('for (int i%d = 0; i%d < 2; i%d += 1) { %s }' % (self.n, self.n, self.n, self.block(2, False, True, False, 3)))
             else:
                 body.append(self.stmt(2, False, False, False))
         helper = 'empty @h(int a) { %s }\n' % self.block(2, False, False, True, 3)
